@@ -228,4 +228,26 @@ mod verif_indicators {
 		assert!(<ind::TrueStrengthIndex>::default().init(&c).is_ok());
 		assert!(<ind::WoodiesCCI>::default().init(&c).is_ok());
 	}
+
+	// ---- C09: IndicatorConfig::init_fn (init + IndicatorInstance::into_fn: a boxed FnMut closure owning the instance) against init + next,
+	// MomentumIndex(2, 1), symbolic integer closes, 3 steps (bounded); the candles outlive the closure, as init_fn's lifetime requires
+	#[kani::proof]
+	#[kani::unwind(6)]
+	fn vk_init_fn_is_stream() {
+		use crate::indicators::MomentumIndex;
+		let cfg = MomentumIndex { period1: 2, period2: 1, source: Source::Close };
+		let (c0, c1, c2, c3): (i8, i8, i8, i8) = (kani::any(), kani::any(), kani::any(), kani::any());
+		let cs = [candle(c0 as ValueType, c0 as ValueType), candle(c1 as ValueType, c1 as ValueType), candle(c2 as ValueType, c2 as ValueType), candle(c3 as ValueType, c3 as ValueType)];
+		let mut stat = IndicatorConfig::init(cfg, &cs[0]).unwrap();
+		let mut f = IndicatorConfig::init_fn(cfg, &cs[0]).unwrap();
+		let mut k = 1;
+		while k < 4 {
+			let a = IndicatorInstance::next(&mut stat, &cs[k]);
+			let b = f(&cs[k]);
+			assert!(a.values_length() == b.values_length() && a.signals_length() == b.signals_length());
+			assert!(a.value(0).to_bits() == b.value(0).to_bits() && a.value(1).to_bits() == b.value(1).to_bits());
+			assert!(a.signal(0) == b.signal(0));
+			k += 1;
+		}
+	}
 }
